@@ -155,3 +155,77 @@ func AfterFunc(d Duration, f func()) *Timer {
 	})
 	return t
 }
+
+// Ticker: an untimed ticker. A tick can be delivered at any scheduling point at which the channel is
+// empty (the real ticker drops ticks nobody takes) until Stop; like every timer event it is an
+// environment step that the explorer only takes as a costed deviation, or when nothing else can run.
+// Bound of the model: at most 3 ticks per ticker and execution are taken while other threads could run
+// instead; a tick without which every thread would be stuck is always delivered.
+type Ticker struct {
+	C       <-chan Time
+	c       chan Time
+	real    *time.Ticker
+	stopped bool
+	ticks   int
+}
+
+//go:norace
+func (t *Ticker) canTick() bool {
+	return !t.stopped && len(t.c) == 0 && (t.ticks < 3 || !vrt.OrdinaryEnabled())
+}
+
+//go:norace
+func NewTicker(d Duration) *Ticker {
+	if d <= 0 {
+		panic("non-positive interval for NewTicker")
+	}
+	if !vrt.Running() {
+		rt := time.NewTicker(d)
+		return &Ticker{C: rt.C, real: rt}
+	}
+	t := &Ticker{c: make(chan Time, 1)}
+	t.C = t.c
+	id := *(*unsafe.Pointer)(unsafe.Pointer(&t.c))
+	vrt.GoDaemon("ticker", func() {
+		for {
+			vrt.PointOp(&vrt.Op{Kind: "ticker.tick", Obj: id, Write: true, Ready: t.canTick})
+			if t.stopped {
+				return
+			}
+			t.ticks++
+			select {
+			case t.c <- epoch.Add(elapsed):
+			default:
+			}
+		}
+	})
+	return t
+}
+
+//go:norace
+func (t *Ticker) Stop() {
+	if t.real != nil {
+		t.real.Stop()
+		return
+	}
+	if vrt.Running() {
+		vrt.PointOp(&vrt.Op{Kind: "ticker.Stop", Obj: *(*unsafe.Pointer)(unsafe.Pointer(&t.c)), Write: true})
+	}
+	t.stopped = true
+}
+
+//go:norace
+func (t *Ticker) Reset(d Duration) {
+	if t.real != nil {
+		t.real.Reset(d)
+		return
+	}
+	t.stopped = false
+}
+
+func Tick(d Duration) <-chan Time {
+	if d <= 0 {
+		return nil
+	}
+	return NewTicker(d).C
+}
